@@ -60,6 +60,7 @@ PROPS = {
     },
     "C03": {
         "ops": [("of", FF, 12000, 400000), ("wrap", FF, 4000, 150000), ("wsl", FF, 4000, 100000), ("fill2", FF, 2000, 50000)],
+        "colmin": True,
         "explanation": "theorems: the DP value is a lower bound for EVERY arrangement (Bellman, <=2 line widths), attained by back-tracking any true column minima (conditional on ColMin for smawk, which is not proved), the reference search satisfies ColMin, three widths are a counterexample, wrap hands exactly two widths to the algorithm; L1/L2: exact cost (Q) of the implementation's arrangement = the DP optimum for every generated fragment list inside the precondition, and for every paragraph partition recorded at the wrap level; on integer-valued cases the verdict is that of the extracted Coq function optimal_b, proved sound and complete for 'minimum cost over all arrangements' (C03_checker_sound / _complete)",
         "assumptions": ["ColMin: smawk::online_column_minima returns true column minima on this matrix — NOT proved, exercised on every generated case by the exact-cost comparison"],
     },
